@@ -1551,6 +1551,29 @@ def call_entry(name, args, prm):
     return ("ok", canon_result(r))
 
 
+def guarded(f, *a):
+    """f(*a) under the CPU-time guard of call_entry (the in-place operations of the negative stage: tie_notes on a note of
+    hundreds of quarters makes find_tie_split's search explode -- C11's business; here it only must not hang the run)."""
+    import signal
+
+    guard = False
+    try:
+        signal.signal(signal.SIGVTALRM, _on_vtalrm)
+        signal.setitimer(signal.ITIMER_VIRTUAL, CALL_CPU_LIMIT)
+        guard = True
+    except (ValueError, OSError):
+        pass
+    try:
+        try:
+            return f(*a)
+        finally:
+            if guard:
+                signal.setitimer(signal.ITIMER_VIRTUAL, 0)
+    except _CpuTimeout:
+        TIMEOUTS["inplace"] += 1
+        raise RuntimeError("CpuTimeout")
+
+
 def gen_params(rng, work):
     flags = {k: True for k in NA_FLAGS if rng.random() < 0.4}
     rflags = {k: True for k in ["include_pitch_spelling", "include_key_signature", "include_time_signature", "include_metrical_position",
@@ -3731,7 +3754,7 @@ def run(ctx):
                 if not cond(p):
                     continue
                 a = fp_digest(fingerprint([p]))
-                f(p)
+                guarded(f, p)
                 b = fp_digest(fingerprint([p]))
             except Exception as e:
                 ctx.count("inplace_raised/%s/%s" % (name, type(e).__name__))
@@ -3744,7 +3767,7 @@ def run(ctx):
             p = build_part(ps)
             try:
                 a = fp_digest(fingerprint([p]))
-                f(p)
+                guarded(f, p)
                 b = fp_digest(fingerprint([p]))
                 changed_counts[name][0 if a != b else 1] += 1
             except Exception as e:
